@@ -41,6 +41,9 @@ type liveNode struct {
 	genesis abcitypes.RequestInitChain
 }
 
+// c13DevMode: the chain was initialised with --dev (the flag lives in the state file)
+var c13DevMode bool
+
 func c13Load(r *simkit.Run, genesis abcitypes.RequestInitChain) (*liveNode, error) {
 	shapp, err := app.LoadShutterAppFromFile(c13Path)
 	if err != nil {
@@ -48,6 +51,10 @@ func c13Load(r *simkit.Run, genesis abcitypes.RequestInitChain) (*liveNode, erro
 	}
 	n := &liveNode{a: &shapp, genesis: genesis}
 	if n.a.Info(abcitypes.RequestInfo{}).LastBlockHeight == 0 {
+		if c13DevMode {
+			// what `chain init --dev` wrote into the initial state file
+			n.a.DevMode = true
+		}
 		n.a.InitChain(genesis)
 	}
 	return n, nil
@@ -78,6 +85,11 @@ func runC13(r *simkit.Run) {
 
 	// 1. generate the history with the never-stopped reference
 	w := newGovWorld(r, govParams{maxUniverse: 4, replicas: 1, smallThresh: true})
+	c13DevMode = c.Chance(120, "dev-mode")
+	w.chain.Replicas[0].App.DevMode = c13DevMode
+	if c13DevMode {
+		r.Probe("dev-mode-runs")
+	}
 	H := c.Range(3, maxH, "H")
 	var hist []*c13Block
 	weights := []int{6, 3, 4, 5, 3, 1}
